@@ -299,10 +299,10 @@ func runC02(c *core.Ctx) *core.Violation {
 		}
 
 		type result struct {
-			err      error
-			done     bool
-			t0, t1   time.Duration
-			now0Ms   int64
+			err    error
+			done   bool
+			t0, t1 time.Duration
+			now0Ms int64
 		}
 		results := make([]*result, len(entries))
 		s.GoProc(toolProc, "restorer", func() {
